@@ -4,6 +4,7 @@ go 1.24.0
 
 require (
 	github.com/berquerant/crd v0.0.0
+	github.com/berquerant/ybase v0.7.0
 	gopkg.in/yaml.v3 v3.0.1
 )
 
